@@ -1,5 +1,5 @@
 /* C06 — thread pool under every schedule (schedx).  Real Lib/thpool/thpool.c, real threads, modelled pthread objects.
- * Config: --threads T --tasks N --flags <1 LAZY | 2 DETACHED> --wait 0|1 --submitters 0|2 --nested 0|1 */
+ * Config: --threads T --tasks N --flags <1 LAZY | 2 DETACHED> --wait 0|1 --submitters 0|2 --nested 0|1 --probe <mask> --failcreate N */
 #define _GNU_SOURCE
 #include "schedx.h"
 #include <stdio.h>
@@ -11,7 +11,10 @@
 #include <module/thpool/thpool.h>
 
 const char *hx_name = "c06_thpool";
-static int NTHR = 2, NTASK = 2, FLAGS = 0, WAIT = 1, SUBM = 0, NESTED = 0;
+static int NTHR = 2, NTASK = 2, FLAGS = 0, WAIT = 1, SUBM = 0, NESTED = 0, PROBE = 0, FAILCREATE = 0;
+/* PROBE (bit mask): 1 task 0 calls m_thpool_length from its body, 2 task 0 calls m_thpool_clear, 4 the main thread calls m_thpool_length after its submissions, 8 ... m_thpool_clear */
+static atomic_int maybe_cleared[8];        /* accepted and not started when a successful m_thpool_clear was called: may legitimately never run */
+static atomic_int create_failed;            /* the injected pthread_create failure has been consumed */
 static char cfg[160];
 
 #define MAXTASK 8
@@ -27,6 +30,23 @@ static atomic_long start_stamp[MAXTASK], finish_stamp[MAXTASK]; static long free
 static int nested_idx = -1;
 static int racy_counter;      /* unsynchronised on purpose only in --selftest-race builds */
 
+static void probe_len(const char *who) {
+    int pending = 0; for (int i = 0; i < MAXTASK; i++) if (accepted[i] && !started[i]) pending++;
+    for (int i = 0; i < MAXTASK; i++) if (add_rc[i] == -999) pending++;      /* a submission in progress on another thread */
+    ssize_t l = m_thpool_length(pool);
+    sch_obs_thread(300 + (l < 0 ? 9 : (int)l));
+    if (l > pending) sch_fail("TP.len", "TP.len|over", "m_thpool_length (%s) = %zd, but only %d accepted tasks had not started", who, l, pending);
+    if (l < 0 && l != -EPERM) sch_fail("TP.len", "TP.len|rc", "m_thpool_length (%s) returned %zd", who, l);
+}
+static void probe_clear(const char *who) {
+    int cand[2 * MAXTASK], nc = 0; for (int i = 0; i < MAXTASK; i++) if ((accepted[i] || add_rc[i] == -999) && !started[i]) cand[nc++] = i;
+    ssize_t r = m_thpool_clear(pool);
+    sch_obs_thread(320 + (r < 0 ? 9 : (int)r));
+    (void)who;      /* a negative answer (shutting down; nothing queued: -EINVAL from the queue) is not pinned down by the statement: accepted, nothing may then have been removed */
+    /* the call takes effect when it holds the pool lock, not when it was made: what was submitted meanwhile may be removed as well */
+    for (int i = 0; i < MAXTASK; i++) if ((accepted[i] || add_rc[i] == -999) && !started[i]) cand[nc++] = i;
+    if (r >= 0) for (int k = 0; k < nc; k++) maybe_cleared[cand[k]] = 1;
+}
 static void *task(void *p) {
     targ_t *a = p;
     if (a < ARG || a >= ARG + MAXTASK || a->idx != (int)(a - ARG)) sch_fail("TP.arg", "TP.arg", "task ran with an argument that was never submitted");
@@ -42,6 +62,8 @@ static void *task(void *p) {
     racy_counter++;
 #endif
     sch_yield();                                  /* the body spans other threads' steps */
+    if (i == 0 && (PROBE & 1)) probe_len("from a task");
+    if (i == 0 && (PROBE & 2)) probe_clear("from a task");
     if (NESTED && i == 0 && nested_idx > 0) {     /* a running task submits a task to its own pool (legal even during shutdown) */
         add_rc[nested_idx] = -999;
         int rc = m_thpool_add(pool, task, &ARG[nested_idx]);
@@ -61,6 +83,7 @@ static void submit(int i) {
     int rc = m_thpool_add(pool, task, &ARG[i]);
     add_rc[i] = rc; accepted[i] = rc == 0;
     sch_obs_thread(200 + i * 2 + (rc == 0));
+    if (rc != 0 && FAILCREATE && !create_failed) { create_failed = 1; return; }      /* the one injected pthread_create failure may surface as a refused submission (LAZY pools) */
     if (rc != 0) sch_fail("TP.add", "TP.add|refused", "m_thpool_add of task %d returned %d on a pool that is not shutting down", i, rc);
 }
 static void *submitter(void *p) {
@@ -71,7 +94,9 @@ static void *submitter(void *p) {
 
 void hx_main(void) {
     for (int i = 0; i < MAXTASK; i++) ARG[i].idx = i;
+    sch_create_fail_nth = FAILCREATE;
     pool = m_thpool_new(NTHR, FLAGS);
+    if (!pool && FAILCREATE && !(FLAGS & 1) && FAILCREATE <= NTHR) { free_returned = 1; return; }      /* eager pool whose n-th worker could not be created: no pool, and no worker may touch it any more */
     if (!pool) sch_fail("TP.new", "TP.new", "m_thpool_new returned NULL");
     if (NESTED) nested_idx = NTASK;               /* extra task index used by the nested submission */
     if (SUBM) {
@@ -81,6 +106,8 @@ void hx_main(void) {
     } else {
         for (int i = 0; i < NTASK; i++) submit(i);
     }
+    if (PROBE & 4) probe_len("from the submitting thread");
+    if (PROBE & 8) probe_clear("from the submitting thread");
     free_rc = m_thpool_free(&pool, WAIT);
     free_stamp = sch_clock();
     int total = NTASK + (NESTED ? 1 : 0);
@@ -90,7 +117,7 @@ void hx_main(void) {
     if (pool) sch_fail("TP.free", "TP.free|ptr", "m_thpool_free did not clear the handle");
     for (int i = 0; i < total; i++) {
         if (started_at_free[i] && !finished_at_free[i]) sch_fail("TP.free-early", "TP.free-early|running", "m_thpool_free(wait_all=%d) returned while task %d was still running", WAIT, i);
-        if (WAIT && accepted[i] && !finished_at_free[i]) sch_fail("TP.free-early", "TP.free-early|pending", "m_thpool_free(wait_all=true) returned although accepted task %d had not run", i);
+        if (WAIT && accepted[i] && !finished_at_free[i] && !maybe_cleared[i]) sch_fail("TP.free-early", "TP.free-early|pending", "m_thpool_free(wait_all=true) returned although accepted task %d had not run", i);
     }
 }
 
@@ -102,7 +129,7 @@ void hx_final(void) {
         if (s > 1) sch_fail("TP.once", "TP.once", "task %d started %d times", i, s);
         if (s != f) sch_fail("TP.run", "TP.run|unfinished", "task %d started but never finished", i);
         if (s && !started_at_free[i]) sch_fail("TP.after-free", "TP.after-free|late", "task %d (not started when free returned) ran afterwards", i);
-        if (WAIT && accepted[i] && !s) sch_fail("TP.lost", "TP.lost", "accepted task %d never ran although the pool was freed with wait_all", i);
+        if (WAIT && accepted[i] && !s && !maybe_cleared[i]) sch_fail("TP.lost", "TP.lost", "accepted task %d never ran although the pool was freed with wait_all", i);
         if (s && !accepted[i]) sch_fail("TP.ghost", "TP.ghost", "task %d ran although its submission was refused", i);
         o = o * 7 + s * 3 + accepted[i];
     }
@@ -119,10 +146,12 @@ void hx_config(int argc, char **argv) {
         if (!strcmp(argv[i], "--wait")) WAIT = atoi(argv[i + 1]);
         if (!strcmp(argv[i], "--submitters")) SUBM = atoi(argv[i + 1]);
         if (!strcmp(argv[i], "--nested")) NESTED = atoi(argv[i + 1]);
+        if (!strcmp(argv[i], "--probe")) PROBE = atoi(argv[i + 1]);
+        if (!strcmp(argv[i], "--failcreate")) FAILCREATE = atoi(argv[i + 1]);
     }
     if (NTASK > MAXTASK - 1) NTASK = MAXTASK - 1;
-    snprintf(cfg, sizeof cfg, "threads=%d tasks=%d flags=%s%s%s wait_all=%d submitters=%d nested=%d", NTHR, NTASK,
-             FLAGS & 1 ? "LAZY" : "", (FLAGS & 3) == 3 ? "|" : "", FLAGS & 2 ? "DETACHED" : ((FLAGS & 1) ? "" : "eager"), WAIT, SUBM, NESTED);
+    snprintf(cfg, sizeof cfg, "threads=%d tasks=%d flags=%s%s%s wait_all=%d submitters=%d nested=%d probe=%d failcreate=%d", NTHR, NTASK,
+             FLAGS & 1 ? "LAZY" : "", (FLAGS & 3) == 3 ? "|" : "", FLAGS & 2 ? "DETACHED" : ((FLAGS & 1) ? "" : "eager"), WAIT, SUBM, NESTED, PROBE, FAILCREATE);
 }
 const char *hx_config_str(void) { return cfg; }
 int main(int argc, char **argv) { return sch_main(argc, argv); }
